@@ -64,6 +64,11 @@ st2 = make(struct { S struct { A []int64 } })
 	}))
 	must(e.Define("swap", func(p, q interface{}) (interface{}, interface{}) { return q, p }))
 	must(e.Define("arr2", func(a [2]int64) int64 { return a[0] + a[1] }))
+	must(e.Define("harr", [3]int64{1, 2, 3}))
+	must(e.Define("harrs", [][3]int64{{1, 2, 3}}))
+	must(e.Define("hemb", &npOuter{}))
+	must(e.Define("hembv", npOuter{}))
+	must(e.Define("hembs", []npOuter{{}}))
 	must(e.Define("arr0", func(a [0]string) int64 { return 0 }))
 	must(e.Define("arrs", func(a [][2]int64) int64 { return int64(len(a)) }))
 	must(e.Define("boom", func() { panic("boom") }))
@@ -194,6 +199,10 @@ var degenerateForms = []string{
 	// Go functions with array parameters: Go converts a slice to an array only when it is long enough
 	"arr2([1])", "arr2([1, 2])", "arr2([1, 2, 3])", "arr2([])", "arr2(make([]int64, 1))", "arr2(make([]int64, 3))", "arr2(make([]int64, 0))", "arr2(nilslice)", "arr2(c)", "arr2(\"ab\")", "arr0([1])", "arr0([])",
 	"arrs([[1]])", "arrs([[1, 2, 3]])", "arrs([make([]int64, 1)])", "arrs(make([][]int64, 2))", "go arr2([1])", "defer arr2([1, 2, 3])", "arr2([1]...)",
+	// host values a script meets through Go functions: arrays (not addressable when bound by value), structs embedding a nil pointer
+	"harr[0:2]", "harr[1:]", "harr[:2]", "harr[0:1:2]", "harr[0]", "harr[5]", "harr[0] = 9", "harr[0:2] = [7, 8]", "for q in harr { q }", "len(harr)", "harr + 4", "harr + [4]", "harrs[0][0:2]", "harrs[0][0] = 5\nharrs",
+	"x2 = harr\nx2[0:2]", "[harr][0][1:]", "id(harr)[0:2]", "harr == harr", "harr in [harr]", "toString(harr)", "keys(harr)", "harr...", "sum(harr...)", "arr2(harr)",
+	"hemb.X", "hemb.Y", "hemb.X = 1", "hemb.Y = 1\nhemb.Y", "hemb.Get()", "hembv.X", "hembv.Y", "hembv.X = 1", "hembs[0].X", "hembs[0].X = 2", "toString(hemb)", "hemb == hemb", "for q in hembs { q.X }", "x3 = hemb\nx3.X", "[hemb][0].X", "hemb.npInner", "hemb.npInner.X",
 	"func rec(n) { return rec(n) }", "type T struct", "struct", "chan", "map", "len", "return 1, ", "throw", "break", "continue", "return",
 }
 
@@ -456,4 +465,14 @@ func noPanicSweep(o *Out) {
 			o.Fail(Failure{Oracle: "host-survives", Key: "host-panic:" + firstWords(fmt.Sprint(p), 6), Input: src, Detail: "under vm.Execute (context.Background): " + fmt.Sprint(p)})
 		}
 	}
+}
+
+// a host struct that embeds a pointer (nil unless set): promoted fields and methods go through it
+type npInner struct{ X int64 }
+
+func (i *npInner) Get() int64 { return i.X }
+
+type npOuter struct {
+	*npInner
+	Y int64
 }
